@@ -14,6 +14,11 @@ LAT = [(x, y) for x in (0, 100, 200) for y in (0, 100, 200)]
 ZL = (0, 10, 30)
 
 IH = (1.5, 1.8)       # instrument / target height used by the "ih" templates
+# pairs whose difference exceeds tol-abs/2 = 0.5 m in both signs: an approximate
+# height that applies the difference with the wrong sign (or not at all) is
+# off by more than tol-abs and makes gama-local reject consistent observations
+IH_NEG = (1.6, 0.2)
+IH_POS = (0.2, 1.7)
 
 
 def _noncol(*tri):
@@ -26,6 +31,15 @@ def polar3d(name, dhA, dhB):
                        ("dir", "B", "A"), ("dir", "B", "P"), ("sd", "B", "P") + dhB, ("za", "B", "P") + dhB,
                        ("dist", "A", "P"), ("dh", "A", "P")],
                 pred=_noncol(("A", "B", "P")), zrule="steep")
+
+
+def free3d(name, ih):
+    """the NEW point is the station: directions, slope distances and zenith
+    angles from P to fixed targets, plus the reverse sight from C"""
+    return dict(name=name, dim=3, roles=[("A", "fix"), ("B", "fix"), ("C", "fix"), ("P", "new")],
+                cands=[("dir", "P", "A"), ("dir", "P", "B"), ("dir", "P", "C"), ("sd", "P", "A") + ih, ("za", "P", "A") + ih,
+                       ("sd", "P", "B") + ih, ("za", "P", "B") + ih, ("sd", "C", "P") + ih, ("za", "C", "P") + ih],
+                pred=_noncol(("A", "B", "P"), ("A", "C", "P"), ("B", "C", "P"), ("A", "B", "C")), zrule="steep")
 
 
 TEMPLATES = [
@@ -77,6 +91,11 @@ TEMPLATES = [
     polar3d("polar3d", (None, None), (None, None)),
     polar3d("polar3d-ih", IH, IH),
     polar3d("polar3d-ihmix", (1.5, None), (None, 1.3)),
+    polar3d("polar3d-ihneg", IH_NEG, IH_NEG),
+    polar3d("polar3d-ihpos", IH_POS, IH_POS),
+    free3d("free3d", (None, None)),
+    free3d("free3d-ihneg", IH_NEG),
+    free3d("free3d-ihpos", IH_POS),
     dict(name="trig3d", dim=3, roles=[("A", "fix"), ("B", "fix"), ("C", "fix"), ("P", "new")],
          cands=[("dir", "A", "B"), ("dir", "A", "P"), ("dir", "B", "A"), ("dir", "B", "P"), ("za", "A", "P", None, None),
                 ("za", "B", "P", None, None), ("za", "C", "P", None, None), ("sd", "C", "P", None, None),
@@ -102,11 +121,13 @@ TPL = {t["name"]: t for t in TEMPLATES}
 
 # (template, number of placements) per tier
 TIERS = {
-    "quick": [("polar", 2), ("intersection", 1), ("resection", 1), ("levelling", 1), ("vectors1", 1),
-              ("polar3d", 1, 8), ("polar3d-ih", 1, 8), ("coords", 1, 6), ("traverse", 1), ("trig3d", 1, 8), ("vecmix", 1, 6)],
+    "quick": [("polar", 1), ("intersection", 1), ("resection", 1), ("levelling", 1), ("vectors1", 1),
+              ("polar3d", 1, 8), ("polar3d-ih", 1, 8), ("polar3d-ihneg", 1, 8), ("polar3d-ihpos", 1, 8),
+              ("free3d-ihneg", 1, 7), ("free3d-ihpos", 1, 7), ("traverse", 1), ("trig3d", 1, 8), ("vecmix", 1, 6)],
     "thorough": [("polar", 6), ("intersection", 4), ("resection", 4), ("traverse", 3), ("polar2", 2), ("coords", 2),
                  ("levelling", 1), ("levelling3", 1), ("vectors", 1), ("vectors1", 1), ("polar3d", 2), ("polar3d-ih", 2),
-                 ("polar3d-ihmix", 2), ("trig3d", 2), ("trig3d-ih", 2), ("chain3d", 2), ("traverse3", 2), ("vecmix", 2)],
+                 ("polar3d-ihmix", 1), ("polar3d-ihneg", 1), ("polar3d-ihpos", 1), ("free3d", 1), ("free3d-ihneg", 1),
+                 ("free3d-ihpos", 1), ("trig3d", 2), ("trig3d-ih", 2), ("chain3d", 2), ("traverse3", 2), ("vecmix", 2)],
 }
 
 
